@@ -9,6 +9,7 @@ ID = "C14"
 RULE = ("Input A (nucleotide over ACGTUN or protein over 20 aa + BZX, generated families / unrelated / degenerate sets, any case) and "
         "A' = A with a generated mask: each residue's case flipped with drawn probability and, for nucleotides, T<->U swapped "
         "with drawn probability (plus 'all lower', 'all upper', 'all T->U' masks); same type/penalties/threads; array and file "
+        "API, the latter with distinct, all-equal or pooled record names; "
         "API. Oracle: the gap pattern of every row is identical in both runs and the letters of A' rows are A' letters. "
         "Non-trivial = mask changes >= 1 residue and the result has gaps; distinct by hash of the case.")
 ASSUMPTIONS = ["pairs whose detected kind differs between A and A' are discarded and counted (kind detection is C13's subject)"]
@@ -46,7 +47,9 @@ def cases(draw, tier):
     cfg["gpo"], cfg["gpe"], cfg["tgpe"] = draw(gen.penalties())
     return {"seqs": ss["seqs"], "kind": ss["kind"], "mode": mode,
             "pcase": draw(st.sampled_from([0.0, 0.05, 0.5, 1.0])), "ptu": draw(st.sampled_from([0.0, 0.1, 0.5, 1.0])),
-            "mask_seed": draw(st.integers(0, 2 ** 32 - 1)), "cfg": cfg, "entry": draw(st.sampled_from(["arr", "file"]))}
+            "mask_seed": draw(st.integers(0, 2 ** 32 - 1)), "cfg": cfg, "entry": draw(st.sampled_from(["arr", "file"])),
+            # the property does not ask for distinct names: records may share a name (all equal / a pool of two)
+            "name_mode": draw(st.sampled_from(["distinct", "distinct", "all_equal", "pool2"]))}
 
 
 def strategy(tier):
@@ -69,7 +72,10 @@ def check(case):
             ra = kal.align_arr(a, cfg)
             rb = kal.align_arr(b, cfg)
         else:
-            names = ["s%d" % i for i in range(len(a))]
+            nm = case.get("name_mode", "distinct")
+            names = ["s%d" % i for i in range(len(a))] if nm == "distinct" else (["seq"] * len(a) if nm == "all_equal"
+                                                                                  else ["seq%d" % (i % 2) for i in range(len(a))])
+            cl.append("names=" + nm)
             ra = kal.align_named(names, a, cfg)
             rb = kal.align_named(names, b, cfg)
             if ra["biotype"] != rb["biotype"]:
